@@ -189,8 +189,10 @@ class Progress:
         c = self._ub.get((id(g), key))
         if c is not None:
             return c
-        fwd = g.reachable([d], avoid=[node])
-        bwd = g.reachable([node], forward=False, avoid=[d])
+        # only the acyclic segment d → node: do not go around an enclosing loop (a new iteration re-executes d anyway)
+        heads = [h for h in g.nodes if h.kind == 'loophead' and g.dominates(h, d)]
+        fwd = g.reachable([d], avoid=[node] + heads)
+        bwd = g.reachable([node], forward=False, avoid=[d] + heads)
         ok = True
         for i in fwd & bwd:
             n = g.nodes[i]
